@@ -84,6 +84,13 @@ func andCase[X sigma.Statement, W sigma.Witness, A sigma.Statement, S sigma.Stat
 func orCase[X sigma.Statement, W sigma.Witness, A sigma.Statement, S sigma.State, Z sigma.Response](
 	c *sigCase[X, W, A, S, Z], side int,
 ) *sigCase[sigor.Statement[X], sigor.Witness[W], sigor.Commitment[A], *sigor.State[S, Z], *sigor.Response[Z]] {
+	return orCaseN(c, 2, side)
+}
+
+// orCaseN is the n-way OR composition of c where only branch `side` has a witness.
+func orCaseN[X sigma.Statement, W sigma.Witness, A sigma.Statement, S sigma.State, Z sigma.Response](
+	c *sigCase[X, W, A, S, Z], n, side int,
+) *sigCase[sigor.Statement[X], sigor.Witness[W], sigor.Commitment[A], *sigor.State[S, Z], *sigor.Response[Z]] {
 	type (
 		XX = sigor.Statement[X]
 		WW = sigor.Witness[W]
@@ -91,24 +98,30 @@ func orCase[X sigma.Statement, W sigma.Witness, A sigma.Statement, S sigma.State
 		SS = *sigor.State[S, Z]
 		ZZ = *sigor.Response[Z]
 	)
-	sideName := []string{"orL", "orR"}[side]
-	out := &sigCase[XX, WW, AA, SS, ZZ]{name: c.name + "/" + sideName, heavy: c.heavy, unitMS: c.unitMS * 2}
+	sideName := fmt.Sprintf("or%d.%d", n, side)
+	if n == 2 {
+		sideName = []string{"orL", "orR"}[side]
+	}
+	out := &sigCase[XX, WW, AA, SS, ZZ]{name: c.name + "/" + sideName, heavy: c.heavy, unitMS: c.unitMS * n}
 	out.mk = func(rng io.Reader) sigma.Protocol[XX, WW, AA, SS, ZZ] {
-		return must(sigor.Compose(c.mk(rng), 2, rng))
+		return must(sigor.Compose(c.mk(rng), uint(n), rng))
 	}
 	out.inst = func(i int) (XX, WW) {
-		x0, w0 := c.inst(2 * i)
-		x1, w1 := c.inst(2*i + 1)
-		w := w0
-		if side == 1 {
-			w = w1
+		xs := make([]X, n)
+		var w W
+		for k := range n {
+			x, wk := c.inst(n*i + k)
+			xs[k] = x
+			if k == side {
+				w = wk
+			}
 		}
-		return must(sigor.ComposeStatements(x0, x1)), sigor.NewWitness(w)
+		return must(sigor.ComposeStatements(xs...)), sigor.NewWitness(w)
 	}
 	out.alts = func() []altStmt[XX] {
 		base, _ := out.inst(0)
 		var alts []altStmt[XX]
-		for k := range 2 {
+		for k := range n {
 			xs := append(XX{}, base...)
 			xs[k], _ = c.inst(100 + k)
 			alts = append(alts, altStmt[XX]{fmt.Sprintf("branch%d:=other-instance", k), xs})
@@ -127,7 +140,7 @@ func orCase[X sigma.Statement, W sigma.Witness, A sigma.Statement, S sigma.State
 		out.extract = func(_ sigma.Protocol[XX, WW, AA, SS, ZZ], x XX, a AA, _ []sigma.ChallengeBytes, zs []ZZ) (WW, error) {
 			bp := c.mk(stream(out.name + "/extract"))
 			// the real branch is the one whose branch challenges differ between the two transcripts
-			for k := range 2 {
+			for k := range n {
 				if bytes.Equal(zs[0].E[k], zs[1].E[k]) {
 					continue
 				}
